@@ -201,7 +201,7 @@ GROUPS = {"class_shape": g_class_shape, "methods": g_methods, "class_header_orde
           "canary": c13.g_canary}
 
 CLASS_PROGRAMS = [
-    "seen = []\ndef traced(fn):\n    def w(*a, **k):\n        seen.append(fn.__name__)\n        return fn(*a, **k)\n    return w\n"
+    "seen = []\ndef traced(fn):\n    def w(*a, **k):\n        seen.append('hook')\n        return fn(*a, **k)\n    return w\n"
     "class Base:\n    @traced\n    def __init_subclass__(cls, **kw):\n        cls.tag = sorted(kw)\nclass Sub(Base, flag=1):\n    pass\n"
     "class B2:\n    @classmethod\n    def __init_subclass__(cls):\n        cls.hooked = True\nclass S2(B2):\n    pass\n"
     "r = (Sub.tag, seen, S2.hooked, type(vars(Base)['__init_subclass__']).__name__, type(vars(B2)['__init_subclass__']).__name__)\n",
